@@ -262,9 +262,10 @@ Proof.
   ev_case; try assumption; try cyc_triv; apply IH.
 Qed.
 
-Lemma dsl_for_keys_cyc : forall keys fr st k v l b, dsl_cycP (dsl_for_keys ev fr st k v l keys b).
+Lemma dsl_for_keys_cyc : forall keys fr st k v l isns b, dsl_cycP (dsl_for_keys ev fr st k v l isns keys b).
 Proof.
-  induction keys as [|key rest IH]; intros fr st k v l b; cbn [dsl_for_keys]; [cyc_triv|]. cbv zeta.
+  induction keys as [|key rest IH]; intros fr st k v l isns b; cbn [dsl_for_keys]; [cyc_triv|]. cbv zeta.
+  destruct (dsl_for_fetch _ _ _ _); [|cyc_triv].
   ev_case; try assumption; try cyc_triv; apply IH.
 Qed.
 
